@@ -62,7 +62,8 @@ func slotOf(raw string, key []byte) (int, bool) {
 // ChunkConc runs writers and readers of one key through separate real chunked handlers against a
 // gated fake backend: the scheduler decides which connection's next backend request is processed
 // (or which entry the backend loses) and enumerates the schedules depth-first.
-//   -mode interleave|subsets   -in programs.json   -n max schedules per program
+//
+//	-mode interleave|subsets   -in programs.json   -n max schedules per program
 func ChunkConc(a Args) {
 	rec, err := NewRec(a.Out)
 	must(err)
